@@ -421,6 +421,35 @@ def run(ck, P):
           "an event is processed without incrementing '%s': a batch made only of such events (e.g. context tick) is not followed by an evaluation pass" % cnt_var,
           path=rules.fmt_path(rvf, bad) if bad else None)
 
+    # a refused start/stop changes nothing: the steps that can fail (pipe creation, (re)arming or removing the sources) all come
+    # before the state store and the counter update — after the store only the hook's verdict can change the outcome
+    for fx in (st_fn, sp_fn):
+        stores_x = [e for e in P.writes_to_field("_mod", "state") if e.fn is fx]
+        fall = [e for e in fx.calls() if e.callee in ("init_pubsub_fd", "manage_srcs")]
+        def _after(a_, b_, fx=fx):
+            """b_ can execute after a_"""
+            if a_.block.id == b_.block.id and b_.idx > a_.idx:
+                return True
+            seen_, st_ = set(), [x for x in a_.block.succs if x is not None]
+            while st_:
+                n_ = st_.pop()
+                if n_ == b_.block.id:
+                    return True
+                if n_ in seen_:
+                    continue
+                seen_.add(n_)
+                st_.extend(x for x in fx.blocks[n_].succs if x is not None)
+            return False
+        late = [e for e in fall if any(_after(s_, e) for s_ in stores_x)]
+        ck.ob("C01.2-EDGES", fx.site("fallible steps precede the state store"), bool(fall) and bool(stores_x) and not late,
+              "%s: %s all precede the state store" % (fx.name, sorted({e.callee for e in fall})) if not late else
+              "%s stores the new state before %s() has succeeded: when that step fails the call returns an error but the module already is in the new "
+              "state (and counted), its start/stop callback never ran — a refused call changed the state" % (fx.name, late[0].callee))
+
+    ck.rule("C01.8-FLAG-BITS", "R-FLAG-BITS: the module states are single distinct bits (state sets are tested with `&`)", floor=1)
+    from props.flags import flag_bits
+    flag_bits(ck, P, "C01.8-FLAG-BITS", "m_mod_states", "Lib/core")
+
     ck.not_decided += [
         "that arbitrary call sequences keep the counter equal to the number of RUNNING modules (follows from C01.2+C01.3 only)",
         "'exactly once' over re-entrant histories; termination of the loop",
